@@ -8,7 +8,9 @@ SPEC = {'level': 'exploration',
              'target': 'c22_mempool_history',
              'cases_quick': 400,
              'cases_thorough': 5000,
-             'min_cases_quick': 200,
+             'min_cases_quick': 60,
+             'max_seconds_quick': 600,
+             'max_seconds_thorough': 14400,
              'floors': {'reorg-with-sensitive-entry': 0.3, 'reorg-depth>=2': 0.2, 'mined-with-nonpool-txs': 0.25, 'replacement-happened': 0.1,
                         'package-accepted': 0.15, 'accepted-coinbase-spend': 0.2, 'accepted-locktime': 0.15, 'accepted-bip68': 0.15, 'time-jump': 0.2,
                         'prioritise': 0.15, 'trim': 0.15, 'pool>=10': 0.1, 'with-CTxMemPool-check': 0.15},
